@@ -202,6 +202,9 @@ def trip_rounds(ctx, case):
     n = case['rounds']
     size = case['size']
     contents = [contents_fixed(rng, size if not case['shrinking'] else max(0, size - 7 * i)) for i in range(n)]
+    same_key = case.get('same_key', False)
+    if same_key:
+        contents = [contents[0]] * n        # the very same call (same key, same delivered bytes) is made in every round
     w = dict(case)
     dir_a = tempfile.mkdtemp(prefix='vp-c20a-')
     dir_b = tempfile.mkdtemp(prefix='vp-c20b-')
@@ -222,10 +225,10 @@ def trip_rounds(ctx, case):
                 return file_path
             ns = {}
             if static:
-                ns['fetch'] = staticmethod(rec.static_intercept_input('files.fetch', data_handler=in_handler, capture_args=[CapturedArg(1, 'round_no')])(
+                ns['fetch'] = staticmethod(rec.static_intercept_input('files.fetch', data_handler=in_handler, capture_args=[] if same_key else [CapturedArg(1, 'round_no')])(
                     lambda file_path, round_no: fetch_body(file_path, round_no)))
             else:
-                ns['fetch'] = rec.intercept_input('files.fetch', data_handler=in_handler, capture_args=[CapturedArg(2, 'round_no')])(
+                ns['fetch'] = rec.intercept_input('files.fetch', data_handler=in_handler, capture_args=[] if same_key else [CapturedArg(2, 'round_no')])(
                     lambda self, file_path, round_no: fetch_body(file_path, round_no))
             ns['publish'] = rec.intercept_output('files.publish', data_handler=out_handler)(lambda self, file_path: 'ok')
             seen = []
@@ -241,6 +244,13 @@ def trip_rounds(ctx, case):
                         f.write(data)
                     os.utime(dst, (1700000000, 1700000000))
                     self.publish(dst)
+                    if same_key:
+                        # the operation consumes its scratch file: removes it or overwrites it before it asks for it again
+                        if (case['seed'] + i) % 2:
+                            os.remove(src)
+                        else:
+                            with open(src, 'wb') as f:
+                                f.write(b'processed')
                 return n
             ns['execute'] = rec.operation()(execute)
             cls = genclasses.register(type('FileRounds%d' % (case['seed'] % 100000), (object,), ns))
@@ -412,6 +422,70 @@ def trip_threads(ctx, quick):
                 S.explore_random(make, tg, 150, ctx.rng, on_run, step_budget=50000)
 
 
+def holder_threads(ctx, quick):
+    """One holder of a recorded output file is read by several threads at once (an export worker next to the comparing thread):
+    every reader gets the file's bytes. Deterministic scheduler, preemption points in the file handler modules (and base64)."""
+    from vlib import sched as S
+    import base64
+    from playback.interception.files.output_file_interception import OutputInterceptionFileDataHandler
+    import playback.interception.files.file_interception as fi
+    import playback.interception.files.output_file_interception as ofi
+    tg = [fi.__file__, ofi.__file__, base64.__file__]
+    rng = random.Random(ctx.seed + 99)
+    d = tempfile.mkdtemp(prefix='vp-c20h-')
+    try:
+        for size in ((300, 5000) if quick else (0, 1, 300, 5000, 70000)):
+            content = contents_fixed(rng, size)
+            src = os.path.join(d, 'out.bin')
+            with open(src, 'wb') as f:
+                f.write(content)
+            handler = OutputInterceptionFileDataHandler(0, 'file_path')
+            recorded = handler.prepare_output_for_recording('output: files.publish #1', (src,), {})
+            holderbox = {}
+
+            def make(sched):
+                holder = handler.restore_output_from_recording(recorded)
+                got = {}
+                holderbox.update(got=got)
+
+                def reader(i):
+                    def fn():
+                        if i == 0:
+                            got[i] = holder.file_content
+                        else:
+                            tgt = os.path.join(d, 'export%d.bin' % i)
+                            holder.to_file(tgt)
+                            with open(tgt, 'rb') as f:
+                                got[i] = f.read()
+                    return fn
+
+                def main():
+                    ths = [sched.Thread(target=reader(i), name='reader%d' % i) for i in range(2)]
+                    for t in ths:
+                        t.start()
+                    for t in ths:
+                        t.join()
+                return main
+
+            def on_run(r, desc):
+                ctx.case(('holder_threads', size, r.trace), nontrivial=len(r.points) > 0)
+                ctx.count('holder_read_schedules')
+                w = {'kind': 'holder_threads', 'size': size, 'schedule': desc if isinstance(desc, tuple) else list(desc)}
+                if r.aborted or r.error is not None:
+                    if r.error is not None:
+                        ctx.violation('reading an output holder from two threads raised %s' % type(r.error).__name__, dict(w, error=repr(r.error)[:200]))
+                    return
+                for i, v in holderbox['got'].items():
+                    if v != content:
+                        ctx.violation('an output holder read by two threads at once handed %s to one of them instead of the file bytes' % (
+                            'the encoded text' if isinstance(v, (bytes, str)) and len(v) > len(content) else 'other content'), dict(w, reader=i))
+                        return
+            S.explore_dfs(make, tg, 1, on_run, max_runs=80 if quick else 3000, step_budget=100000)
+            S.explore_random(make, tg, 20 if quick else 500, ctx.rng, on_run, step_budget=100000)
+    finally:
+        shutil.rmtree(d, ignore_errors=True)
+
+
 def contents_fixed(rng, size):
     return bytes(rng.randrange(256) for _ in range(size))
 
@@ -471,12 +545,13 @@ def run(ctx):
             trip(ctx, case)
     for i in range(ctx.budget(30, 600)):
         case = {'seed': base + 50000 + i, 'rounds': rng.choice([2, 3]), 'size': rng.choice([0, 1, 17, 300, 5000]), 'shrinking': rng.random() < 0.4,
-                'static_in': rng.random() < 0.5, 'cassette': rng.choice(['memory', 'file', 's3']), 'kind': 'rounds'}
+                'static_in': rng.random() < 0.5, 'cassette': rng.choice(['memory', 'file', 's3']), 'kind': 'rounds', 'same_key': i % 3 == 2}
         ctx.case(case)
         ctx.count('round_trips')
         trip_rounds(ctx, case)
     if ctx.shard == 0:
         trip_threads(ctx, ctx.quick)
+        holder_threads(ctx, ctx.quick)
     for i in range(n):
         case = dict(shapes(rng), seed=base + 10000 + i)
         if rng.random() < 0.3:
@@ -493,6 +568,8 @@ def replay(ctx, w):
     case = {k: v for k, v in w.items() if k not in ('content_len', 'round', 'got_len')}
     if case.get('kind') == 'rounds':
         return trip_rounds(ctx, case)
+    if case.get('kind') == 'holder_threads':
+        return holder_threads(ctx, ctx.quick)
     if case.get('kind') == 'threads':
         return trip_threads(ctx, ctx.quick)      # the exploration is deterministic: run it again
     trip(ctx, case)
